@@ -109,7 +109,8 @@ func respell(r *core.Rand, k string) string {
 
 type genOpts struct {
 	name, boundary string
-	loopChance     int // 1/loopChance of the Via chain naming this instance (0 = never)
+	loopChance     int    // 1/loopChance of the Via chain naming this instance (0 = never)
+	client         string // the client address the request will come from ("" = unknown)
 }
 
 func genViaEntry(r *core.Rand, o genOpts, mine bool) string {
@@ -129,6 +130,30 @@ func genViaEntry(r *core.Rand, o genOpts, mine bool) string {
 		return "1.1"
 	}
 	return r.Pick("1.1 ", "1.0 ", "HTTP/1.1 ", "2 ") + r.Pick("fred", "proxy.example.com:8080", "p", "nowhere.com (Apache/1.1)", "ricky", "martian", "other-"+o.boundary)
+}
+
+// realisticValue: what the fixed hop-by-hop header k carries in real traffic.
+func realisticValue(r *core.Rand, k string) string {
+	var v string
+	switch k {
+	case "Te":
+		v = r.Pick("trailers", "trailers", "deflate, trailers", "trailers, deflate;q=0.5", "gzip", "deflate", "trailers;q=1", " trailers ", "gzip,trailers", "")
+	case "Keep-Alive":
+		return r.Pick("timeout=5, max=100", "timeout=5", "max=1000", "300")
+	case "Upgrade":
+		v = r.Pick("websocket", "h2c", "websocket, h2c", "HTTP/2.0, SHTTP/1.3", "TLS/1.0")
+	case "Proxy-Authorization":
+		return r.Pick("Basic dXNlcjpwYXNz", "Bearer abc.def.ghi", "Digest username=\"u\", realm=\"r\", nonce=\"n\"", "Negotiate YII=")
+	case "Proxy-Authenticate":
+		return r.Pick("Basic realm=\"proxy\"", "Digest realm=\"r\", qop=\"auth\", nonce=\"n\"", "Negotiate", "Basic realm=\"a\", Bearer")
+	case "Trailer":
+		v = r.Pick("X-Foo", "Expires", "X-Checksum, X-Foo", "Grpc-Status, Grpc-Message")
+	case "Proxy-Connection":
+		v = r.Pick("keep-alive", "close", "Keep-Alive")
+	default:
+		return "x"
+	}
+	return mangleCase(r, v)
 }
 
 func viaSep(r *core.Rand) string {
@@ -184,6 +209,14 @@ func genHeader(r *core.Rand, o genOpts) http.Header {
 				}
 				h[k] = []string{v}
 				core.Count("gen:proxy-connection-list")
+			case r.Chance(2, 3):
+				// the values these headers carry in real traffic (an implementation may branch on them:
+				// TE: trailers, Upgrade: websocket, Proxy-Connection: keep-alive …), on 1-2 lines, tokens in
+				// any letter case; the clause is value-independent, so every one of them must go
+				for i, n := 0, 1+r.Intn(4)/3; i < n; i++ {
+					h[k] = append(h[k], realisticValue(r, k))
+				}
+				core.Count("gen:realistic-value:" + k)
 			default:
 				put(k, 1+r.Intn(3)/2)
 			}
@@ -213,7 +246,14 @@ func genHeader(r *core.Rand, o genOpts) http.Header {
 	// pre-existing X-Forwarded-*
 	if r.Chance(1, 3) {
 		for i, n := 0, r.Range(1, 2); i < n; i++ {
-			h["X-Forwarded-For"] = append(h["X-Forwarded-For"], r.Pick("10.0.0.1", "192.0.2.7, 10.1.1.1", "2001:db8::1", "", " 172.16.0.9 ", "unknown", "a,,b"))
+			v := r.Pick("10.0.0.1", "192.0.2.7, 10.1.1.1", "2001:db8::1", "", " 172.16.0.9 ", "unknown", "a,,b")
+			if o.client != "" && r.Chance(1, 3) {
+				// the chain already names this very client (two hops on one host, a NAT that pre-populated
+				// the header): last, first, alone, padded — it is appended once more all the same
+				v = r.Pick(o.client, "192.0.2.7, "+o.client, o.client+", 10.1.1.1", " "+o.client+" ", "10.1.1.1,"+o.client)
+				core.Count("gen:xff-names-client")
+			}
+			h["X-Forwarded-For"] = append(h["X-Forwarded-For"], v)
 		}
 	}
 	for _, k := range []string{"X-Forwarded-Proto", "X-Forwarded-Host", "X-Forwarded-Url"} {
@@ -339,7 +379,9 @@ func sortStrings(s []string) {
 	}
 }
 
-func pickStrs(r *core.Rand, xs ...[]string) []string { return append([]string{}, xs[r.Intn(len(xs))]...) }
+func pickStrs(r *core.Rand, xs ...[]string) []string {
+	return append([]string{}, xs[r.Intn(len(xs))]...)
+}
 
 type env struct {
 	major, minor                      int
@@ -397,7 +439,7 @@ func (P) Gen(r *core.Rand, tier string, emit func([]string)) {
 	}
 	for i := 0; i < nStack; i++ {
 		e := genEnv(r)
-		o := genOpts{name: e.name, boundary: e.boundary, loopChance: 3}
+		o := genOpts{name: e.name, boundary: e.boundary, loopChance: 3, client: e.client}
 		h := genHeader(r, o)
 		hs := encHeader(h)
 		ops := []string{
